@@ -66,6 +66,10 @@ ASSUMPTIONS = [
     "comparisons with tolerance 1e-9 (float64) / 2e-4 (float32) relative",
     "the output shape [batch, columns, channels] is a theorem (Props/C12.v encoder_output_shape) and compared with "
     "the implementation's on every case",
+    "a strategy whose replacement value does not exist for the column -- default statistics of an entirely "
+    "missing column (MOST_FREQUENT without any category, the timestamp strategies with all -1 time statistics) "
+    "-- is outside the NA clause: for the missing cells of such a column a raise or any embedding is accepted, "
+    "every other clause is still judged",
     "infinities are not modelled; non-mutation of the caller's tensors is observed by snapshots, not proved",
     "'any parameter initialisation' = any values of the learnable parameters with torch's padding rows "
     "(Embedding / EmbeddingBag padding_idx=0) zero, which is what construction and reset_parameters() guarantee: "
@@ -589,21 +593,28 @@ def probes(case, enc, tap):
 
 
 # ---------------------------------------------------------------------- oracle
+def no_replacement(case, j):
+    """The strategy's replacement value does not exist for column j: default statistics of an entirely missing
+    column (no most frequent category; no oldest / newest / median time).  Such a (strategy, column) pair is
+    outside the NA clause: a missing cell there may raise or get any embedding."""
+    s_, na = case["stats"][j], case["na"]
+    if case["stype"] == "categorical":
+        return na == "MOST_FREQUENT" and not s_["COUNT"][0]
+    if case["stype"] == "timestamp":
+        return na is not None and s_["YEAR_RANGE"][0] < 0
+    return False
+
+
+def outside_na_clause(case, cells):
+    """does this batch hold a missing cell in a column whose replacement value does not exist?"""
+    return any(is_missing(case["stype"], cell) and no_replacement(case, j)
+               for row in cells for j, cell in enumerate(row))
+
+
 def expected_finding(case):
-    """Stable classification of misbehaviour on a boundary input (a statement of WHICH input it is, the
-    verdict is unchanged): D10 (documented upstream limitation) and the two all-missing-column cases."""
-    if case["cls"] == "EmbeddingEncoder":
-        for row in case["feat"]:
-            for j, cell in enumerate(row):
-                if cell == -1 and case["na"] == "MOST_FREQUENT" and not case["stats"][j]["COUNT"][0]:
-                    return "categorical-most-frequent-no-category-raises"
-        return None
+    """The documented upstream limitation (DESIGN.md D10): returns the key if this input is of that kind."""
     if case["cls"] != "TimestampEncoder":
         return None
-    for row in case["feat"]:
-        for j, cell in enumerate(row):
-            if is_missing("timestamp", cell) and case["na"] is not None and case["stats"][j]["YEAR_RANGE"][0] < 0:
-                return "timestamp-strategy-all-missing-column-raises"
     batches = [case["feat"]]
     for cells in batches:
         for row in cells:
@@ -646,14 +657,13 @@ def oracle(case, obs):
                         f"{route} route but a call raised {obs.get('run_exc')}: {obs.get('msg')}")
         return None
     known = expected_finding(case)
+    carved = outside_na_clause(case, case["feat"])
+    if not obs["ok"] and carved and obs["stage"] == "call":
+        return None              # outside the NA clause: a raise is accepted, nothing else is observable
     if not obs["ok"]:
         if known is not None and obs["stage"] == "call":
             why = {"timestamp-na-none-missing-raises": "with a missing timestamp",
-                   "timestamp-year-below-min-raises": "with a year below the fitted minimum",
-                   "timestamp-strategy-all-missing-column-raises": "whose column is entirely missing (default "
-                                                                   "statistics: the imputed cell is itself all -1)",
-                   "categorical-most-frequent-no-category-raises": "whose column has no category at all (the "
-                                                                   "imputed index 0 is outside the one-row table)"}[known]
+                   "timestamp-year-below-min-raises": "with a year below the fitted minimum"}[known]
             return dict(key=known, what=f"{cls}(na_strategy={case['na']}) raised {obs['exc']} on a batch {why}",
                         expected="an embedding per cell", observed=dict(exc=obs["exc"], msg=obs["msg"]))
         return dict(key=f"raises:{cls}:{obs['stage']}", what=f"{cls} raised {obs['exc']} at {obs['stage']}: {obs['msg']}",
@@ -667,7 +677,9 @@ def oracle(case, obs):
     if obs["mutated"] or any(f.get("mutated") for f in obs["foot"]) or obs.get("sel", {}).get("mutated"):
         return dict(key=f"input-mutated:{cls}", what=f"{cls}.forward modified the tensor it was given")
     # footprints: only the perturbed cell's embedding may change
-    for f in obs["foot"]:
+    for (pr, pj, pv), f in zip(case["perts"], obs["foot"]):
+        if "exc" in f and is_missing(case["stype"], pv) and no_replacement(case, pj):
+            continue             # the perturbed cell is outside the NA clause
         if "exc" in f:
             return dict(key=f"raises:{cls}:perturbed", what=f"{cls} raised {f['exc']} after changing cell {f['cell']}: "
                                                             f"{f['msg']}", observed=f)
@@ -713,7 +725,7 @@ def oracle(case, obs):
                     return dict(key=f"na-none-nonzero:{cls}",
                                 what=f"missing cell ({r}, {j}) without NA strategy is not embedded as the zero vector "
                                      f"before the post-module", expected=[0.0] * ch, observed=obs["pre"][r][j])
-    else:
+    elif not carved:
         if not obs.get("na_equal", False):
             return dict(key=f"na-strategy-mismatch:{cls}:{case['na']}",
                         what=f"with na_strategy={case['na']} missing cells are not embedded like the replacement value "
